@@ -10,7 +10,7 @@ import (
 var segsU = []string{"a", "b", "c", "d"}
 
 var fileModes = []int64{0o644, 0o600, 0o444, 0o400, 0o755, 0o000, 0o777, 0o200, 0o111, 0o640}
-var dirModes = []int64{0o755, 0o700, 0o555, 0o500, 0o777, 0o711, 0o750}
+var dirModes = []int64{0o755, 0o700, 0o555, 0o500, 0o777, 0o711, 0o750, 0o600, 0o400, 0o000}
 var nsecs = []int64{0, 400000000, 500000000, 600000000, 123456789}
 var formats = []string{"auto", "ustar", "pax", "gnu"}
 var chunkPlans = [][]int{nil, {1}, {7}, {512}, {4096}, {1, 2, 3, 5, 7}, {13}, {511, 513}}
